@@ -6,6 +6,7 @@ E-mail: seth.axen@gmail.com
 from __future__ import division, print_function
 import os
 import logging
+import operator
 
 import numpy as np
 from rdkit import Chem
@@ -164,12 +165,12 @@ class Fingerprinter(object):
                 mol = conf.GetOwningMol()
             except AttributeError:  # conf is int ID; use existing mol
                 mol = self.mol
-        else:
-            if not isinstance(conf, Chem.Conformer):
-                try:
-                    conf = mol.GetConformer(conf)
-                except TypeError:  # conf isn't ID either. Fall back to first
-                    conf = mol.GetConformer(0)
+        if not isinstance(conf, Chem.Conformer):
+            try:  # any integer type (NumPy integers included) is an ID
+                conf_id = operator.index(conf)
+            except TypeError:  # conf isn't ID either. Fall back to first
+                conf_id = -1  # RDKit: the first conformer, whatever its ID
+            conf = mol.GetConformer(conf_id)
 
         if mol is not self.mol:
             self.reset_mol()
